@@ -67,6 +67,7 @@ func init() {
 		Rules:       []string{"E1"},
 		Run: func(c *Ctx) {
 			RunE1(c, "C08", append(append([]Ob{}, obs...), sharedObs["C08"]...))
+			RunFieldSources(c, "E8.access-token.keyset-default", "op", "Provider", "accessTokenKeySet", "OpenIDKeySet", "JWT access tokens must be verified with the provider's own (storage-backed) key set unless the application explicitly supplies one")
 			RunIssuerCoverage(c, "E7.routes.issuer-interceptor", []string{"KeysEndpoint"}) // handlers verify tokens / assertions against the issuer the interceptor puts into the context
 			RunFieldWriters(c, "E6.active-writers", "oidc", "IntrospectionResponse", "Active", []string{"op.Introspect", "op.(*LegacyServer).Introspect"}, "Active=true must stay behind the introspection obligations")
 		},
